@@ -13,7 +13,11 @@ out = ["## 13. Seeded changes and which checks catch them", "",
        "notes.md, meta.json). `seed_recheck.sh` re-applies every patch to `/repo`, runs every quick check and undoes it; the column",
        "*reported by* is its latest result (exit 1 with a VIOLATION line). Round 1 (`-a`): single-site slips; round 2 (`b`) and",
        "round 3 (`c`): the agents were told what earlier rounds produced and asked for a different kind (default paths, shared helpers,",
-       "cooperating edits, stale state, index subtleties, masked layouts).", "",
+       "cooperating edits, stale state, index subtleties, masked layouts). Round 4 (`d`): one more per property, told the kinds of rounds 1-3.",
+       "Round 5 (`H<n>-d<k>`): one agent per class family with all twenty property texts. Round 6 (`e`, adversarial): the agents were told that",
+       "the checker is a symbolic exact-arithmetic analysis with lints and asked for defects such an analysis would plausibly overlook",
+       "(float64 cancellation, import-order dtypes, integer truncation, hidden state, special values, tail accuracy). The rows marked **none**",
+       "are kept on purpose: they are the measured limit of the technique (section 12).", "",
        "| seed | target | change | needs to manifest | reported by | first missed? -> strengthening |", "|---|---|---|---|---|---|"]
 for m in rows:
     hist = m.get("history", "")
